@@ -1466,4 +1466,50 @@ theorem incomplete_header_waits (ok : Bool → Bytes → Bool) (s : Bytes) (segs
   rw [hs, incomplete_pending ok s h] at this
   simpa [observe, Outcome.obs] using this
 
+/-! ### several connections sharing one factory: what the others receive does not matter -/
+
+theorem foldl_stepAt (ok : Bool → Bytes → Bool) (evs : List (Nat × Bytes)) (f : Nat → State) (i : Nat) :
+    (evs.foldl (stepAt ok) f) i = (chunksOf i evs).foldl (step ok) (f i) := by
+  induction evs generalizing f with
+  | nil => rfl
+  | cons e es ih =>
+    simp only [List.foldl_cons]
+    rw [ih]
+    by_cases h : e.1 = i
+    · simp [chunksOf, h, stepAt]
+    · have h' : ¬ i = e.1 := fun hh => h hh.symm
+      simp [chunksOf, h, h', stepAt]
+
+/-- **Independence of connections.**  In every schedule of `dataReceived` events over any number of
+    connections of one factory — sequential or arbitrarily interleaved — connection `i` ends exactly as
+    if its own chunks had been the only traffic. -/
+theorem interleaving_independent (ok : Bool → Bytes → Bool) (evs : List (Nat × Bytes)) (i : Nat) :
+    runSched ok evs i = run ok (chunksOf i evs) := by
+  unfold runSched run
+  exact foldl_stepAt ok evs _ i
+
+/-- the first sentence of C47 for a connection inside any schedule: whatever else the factory is
+    serving and however the events interleave, a connection whose own bytes are `encode h ++ payload`
+    (any segmentation) gets the header's addresses and exactly `payload` -/
+theorem proxy_seg_invariant_any_schedule (ok : Bool → Bytes → Bool) (h : Hdr) (payload : Bytes)
+    (evs : List (Nat × Bytes)) (i : Nat) (hw : wf ok h)
+    (hs : (chunksOf i evs).flatten = encode h ++ payload) :
+    (runSched ok evs i).closed = false ∧ (runSched ok evs i).info = some (meaning h) ∧
+    (runSched ok evs i).peer = (meaning h).map Prod.fst ∧ (runSched ok evs i).host = (meaning h).map Prod.snd ∧
+    (runSched ok evs i).app = payload := by
+  rw [interleaving_independent]
+  exact proxy_seg_invariant ok h payload _ hw hs
+
+/-- segmentation invariance inside any schedule -/
+theorem runSched_eq_classify (ok : Bool → Bytes → Bool) (evs : List (Nat × Bytes)) (i : Nat) :
+    observe (runSched ok evs i) = (classify ok (chunksOf i evs).flatten).obs := by
+  rw [interleaving_independent]
+  exact run_eq_classify ok _
+
+/-- non-vacuity: two connections, `PROX`/`Y UNKNOWN\r\nhi` interleaved with a junk connection -/
+example : observe (runSched inetOk [(0, [80, 82, 79, 88]), (1, [71, 69, 84]), (0, [89, 32, 85, 78, 75, 78, 79, 87, 78, 13, 10, 104, 105])] 0)
+    = (false, some none, [104, 105]) := by decide +kernel
+example : observe (runSched inetOk [(0, [80, 82, 79, 88]), (1, [71, 69, 84]), (0, [89, 32, 85, 78, 75, 78, 79, 87, 78, 13, 10, 104, 105])] 1)
+    = (true, none, []) := by decide +kernel
+
 end TwistedProps.C47
